@@ -16,6 +16,12 @@ Spec on the implementation (exact integer / `Fraction` arithmetic, independent o
     trunk + branches cover every 1-cell exactly once and no 0-cell;
   * `strop_decomposition(vertices)`: Σ w·h = |shoelace area|; the rectangles loaded as a `Module` are recognised
     by `create_stog` with the trunk first and every other rectangle located on a side.
+  * decimal stream (last clause, as a design is really loaded): polygons on one-decimal grids, magnitudes 10..1000,
+    long contacts next to small sides, decomposed and loaded as the only module of a `Netlist` in a clean tolerance
+    state (the netlist derives ε itself): `has_stog`, trunk first, order kept, side roles.  Failures inside the region
+    of the open finding C15-decimal-decomposition (smallest dimension ≤ 4.5e-4 × largest |coordinate|, i.e. the
+    netlist's ε = 1e-12·smallest is below the rounding of cx ± w/2) that disappear when ε is floored at
+    1e-14·largest |coordinate| carry the finding id; every other failure is a violation.
 All-zero grids: the implementation builds no potential trunk, `is_strop` is False (and the brute-force oracle, which
 needs a non-empty trunk, agrees); empty / ragged matrices raise `AssertionError` (`err:Assert` in the model).
 """
@@ -30,6 +36,7 @@ import geo  # noqa: F401  (keeps the repo on sys.path in the same way as the oth
 import numpy as np
 from frame.geometry.geometry import Point, Rectangle, Shape
 from frame.netlist.module import Module
+from frame.netlist.netlist import Netlist
 from tools.floorset_parser.floor_set_manager.strop import Strop
 from tools.floorset_parser.floor_set_manager.utils.utils import strop_decomposition, is_point_inside_polygon
 
@@ -773,6 +780,124 @@ def compare(ctx: Ctx, todo, replies) -> None:
             ctx.disagree(op, inp, impl if isinstance(impl, str) else repr(impl), model[:600], size=size)
 
 
+# ------------------------------------------------------------------ decimal coordinates, loaded through Netlist
+FINDING_DECIMAL = "C15-decimal-decomposition"
+# the finding's region: the netlist's distance tolerance 1e-12·(smallest dimension) is not above the rounding of the
+# sides cx ± w/2 (≤ ~2 ulp ≈ 4.5e-16·|coordinate| for each of the two rectangles)
+REGION_RATIO = 4.5e-4
+
+
+def decimal_lines(rng, n: int, thin: bool) -> list[float]:
+    """n increasing one-decimal coordinates with magnitudes 10..1000.  `thin=False`: gaps ≥ 2 with (usually) one
+    narrow gap of 2..4 — long contacts next to a small side, outside the finding's region (2/1000 > 4.5e-4);
+    `thin=True`: one gap of 0.1..0.3 (inside the region when the coordinates are large)."""
+    while True:
+        hi = rng.choice([100, 300, 1000, 1000])
+        v = sorted({rng.randint(100, hi * 10) for _ in range(n)})          # tenths
+        if len(v) != n:
+            continue
+        if n >= 2 and rng.random() < 0.7:
+            k = rng.randrange(n - 1)
+            v[k + 1] = v[k] + (rng.randint(1, 3) if thin else rng.randint(20, 40))
+            v = sorted(set(v))
+            if len(v) != n:
+                continue
+        gaps = [b - a for a, b in zip(v, v[1:])]
+        if thin or all(g >= 20 for g in gaps):
+            return [x / 10 for x in v]
+
+
+def netlist_loads(rects):
+    """load the rectangles as the only module of a netlist in a clean tolerance state; (has_stog, roles, rects after)."""
+    Rectangle.undefine_epsilon()
+    try:
+        net = Netlist("Modules: {M: {area: %r, rectangles: %s}}\nNets: []\n"
+                      % (float(sum(r[2] * r[3] for r in rects)), [list(map(float, r)) for r in rects]))
+        m = net.get_module("M")
+        return bool(m.has_stog), [r.location.name for r in m.rectangles], \
+            [[r.center.x, r.center.y, r.shape.w, r.shape.h] for r in m.rectangles], Rectangle.distance_epsilon()
+    finally:
+        Rectangle.undefine_epsilon()
+
+
+def recognised_with_floor(rects, eps: float) -> bool:
+    """would `create_stog` recognise the list under the distance tolerance `eps` (area tolerance sqrt(eps))?"""
+    m = Module("M")
+    for r in rects:
+        m.add_rectangle(Rectangle(center=Point(r[0], r[1]), shape=Shape(r[2], r[3])))
+    Rectangle.set_epsilon(eps)
+    try:
+        return bool(m.create_stog()) and m.rectangles[0].location.name == "TRUNK" and \
+            [m.rectangles[0].center.x, m.rectangles[0].center.y] == [rects[0][0], rects[0][1]]
+    finally:
+        Rectangle.undefine_epsilon()
+
+
+def expected_roles(rects) -> list[str]:
+    tx, ty, tw, _ = (Fraction(v) for v in rects[0])
+    out = ["TRUNK"]
+    for r in rects[1:]:
+        cx, cy = Fraction(r[0]), Fraction(r[1])
+        out.append(("NORTH" if cy > ty else "SOUTH") if abs(cx - tx) * 2 < tw else ("EAST" if cx > tx else "WEST"))
+    return out
+
+
+def decimal_case(ctx: Ctx, vs, nd: bool, fam: str) -> None:
+    """last clause of C15 on ordinary decimal coordinates: decompose, load through `Netlist` (tolerances derived by the
+    netlist itself), require has_stog, trunk first, order kept, side roles."""
+    inp = {"kind": "decimal", "verts": [[x, y] for x, y in vs], "nd": nd, "family": fam}
+    fails: list = []
+    rects = guarded(fails, "strop_decomposition", impl_decomp, vs, nd)
+    if isinstance(rects, str):
+        if rects == "err:Assert":
+            fails.append(("decomposition_iff_exists_trunk", {"oracle": True, "impl": rects}))
+        _flush(ctx, fails, inp, len(vs))
+        ctx.case("decimal", tuple(vs), nontrivial=True)
+        return
+    res = guarded(fails, "Netlist(module from decomposition)", netlist_loads, rects)
+    _flush(ctx, fails, inp, len(vs))
+    ctx.case("decimal", (tuple(vs), nd), nontrivial=len(rects) > 1,
+             sample={"verts": inp["verts"], "rects": rects[:3]})
+    ctx.count("decimal:" + fam)
+    if isinstance(res, str):
+        return
+    has_stog, roles, after, eps = res
+    ok = has_stog and after == [list(map(float, r)) for r in rects] and roles == expected_roles(rects)
+    if ok:
+        return
+    # attribute to the open finding only inside its region and only if flooring the tolerance at the coordinates'
+    # rounding (1e-14·largest |coordinate|) makes the very same list recognised
+    smallest = min([min(r[2], r[3]) for r in rects] + [sum(r[2] * r[3] for r in rects) ** 0.5])
+    largest = max(max(abs(r[0]) + r[2] / 2, abs(r[1]) + r[3] / 2) for r in rects)
+    in_region = smallest <= REGION_RATIO * largest
+    finding = None
+    if in_region and not has_stog:
+        floor_ok = guarded([], "create_stog", recognised_with_floor, rects, max(eps, 1e-14 * largest))
+        if floor_ok is True:
+            finding = FINDING_DECIMAL
+    ctx.count("decimal:not-recognised" + (":finding" if finding else ""))
+    ctx.spec_fail("netlist_recognised", inp, {"has_stog": has_stog, "roles": roles, "expected": expected_roles(rects),
+                                              "rects": rects, "epsilon": eps, "smallest/largest": smallest / largest},
+                  size=len(vs), finding=finding)
+
+
+def gen_decimal_polygon(rng, thin: bool):
+    for _ in range(200):
+        nr, nc = rng.randint(1, 5), rng.randint(1, 5)
+        rows = gen_strop_grid(rng, nr, nc)
+        loop = trace_boundary(to_bool(rows))
+        if loop is None or len(loop) <= 4:
+            continue
+        xs = decimal_lines(rng, nc + 1, thin)
+        ys = decimal_lines(rng, nr + 1, thin)[::-1]
+        vs = [(xs[j], ys[i]) for (j, i) in loop]
+        if rng.random() < 0.5:
+            vs = vs[::-1]
+        k = rng.randrange(len(vs))
+        return vs[k:] + vs[:k]
+    raise RuntimeError("decimal polygon generator starved")
+
+
 # ------------------------------------------------------------------ exhaustive tier (multiprocessing)
 def _exh_worker(args):
     """one chunk of the exhaustive stream, entirely inside the worker: implementation, oracle, clauses and (when the
@@ -907,6 +1032,9 @@ def run(ctx: Ctx) -> None:
         poly_case(ctx, mode, fam, vs, rng.random() < 0.4, reqs, todo, src_rows=src)
     for _ in range(ctx.n(2000, 20000)):
         pip_case(ctx, rng, reqs, todo)
+    for k in range(ctx.n(700, 8000)):
+        thin = k % 7 == 6
+        decimal_case(ctx, gen_decimal_polygon(rng, thin), rng.random() < 0.4, "thin-gap" if thin else "gaps>=2")
     replies = ctx.model(reqs)
     if replies is None:
         ctx.notes.append("model driver unavailable: correspondence not run")
@@ -925,6 +1053,8 @@ def _replay_into(ctx: Ctx, inp: dict, reqs, todo) -> None:
     elif kind == "verts":
         poly_case(ctx, inp["mode"], inp.get("family", "replay"), [tuple(v) for v in inp["verts"]], inp["nd"], reqs, todo,
                   src_rows=inp.get("src_rows"))
+    elif kind == "decimal":
+        decimal_case(ctx, [tuple(v) for v in inp["verts"]], inp["nd"], inp.get("family", "replay"))
     elif kind == "pip":
         vs = [tuple(v) for v in inp["verts"]]
         px, py = inp["p"]
